@@ -130,7 +130,7 @@ static Instance group(const std::string &name, int n, std::vector<std::vector<in
 
 static std::vector<Instance> mk(const std::string &tier) {
 	bool th = tier == "thorough";
-	int N = th ? 7 : 6, K = 3;
+	int N = th ? 8 : 6, K = 3;
 	// priority assignments up to monotone renaming are not collapsed: all K^N assignments for N<=5,
 	// for N=7 all assignments that are non-decreasing after sorting ids is NOT equivalent (ids matter
 	// only through push order, which the BFS permutes) -> use canonical assignments: sorted by id.
